@@ -253,7 +253,8 @@ def jobs(tier):
         for (R, L, nits, nsym) in cfgs_for(name.startswith(CORE), _stateful(name)):
             core = name.startswith(CORE)
             out.append(dict(name='view/%s/R=%d/L=%d/its=%d/sym=%d' % (name, R, L, nits, nsym), func='catalogue_view',
-                            params=dict(name=name, R=R, L=L, nits=nits, nsym=nsym, renew0=core),
+                            params=dict(name=name, R=R, L=L, nits=nits, nsym=nsym,
+                                        renew0=name.startswith(('sort-', 'cache')) and nits == 2 and L <= 6),
                             budget=BQ if q else BT, validate_every=1 if q else 4, per_path=20))
     for kind in IO_KINDS:
         core = kind.startswith(('fromdicts-generator', 'csv-sort'))
